@@ -45,12 +45,15 @@ type canonView struct {
 		src   string
 		order int
 	} // canonical source of every simple statement / condition / range expression, in order
-	n       int
-	depth   int
-	pc      []ast.Expr // canonical conjuncts under which the current statement is reached
-	loopAt  []int      // len(pc) at the entry of each enclosing loop body
-	returns []canonReturn
-	allReturns []canonReturn // including those of inlined helpers
+	innerReturns []canonReturn           // returns inside inlined helpers (not exits of the function itself)
+	stmtPc       [][]ast.Expr            // for each entry of stmts: the canonical conjuncts under which it is reached
+	closures     map[string]*ast.FuncLit // local closures (`f := func(…) {…}`), inlined at their calls like same-file helpers
+	n            int
+	depth        int
+	pc           []ast.Expr // canonical conjuncts under which the current statement is reached
+	loopAt       []int      // len(pc) at the entry of each enclosing loop body
+	returns      []canonReturn
+	allReturns   []canonReturn // including those of inlined helpers
 }
 
 // canonReturn: a return statement, its canonical results and the condition under which it is reached — from the
@@ -202,6 +205,7 @@ func (v *canonView) note(n ast.Node) {
 		src   string
 		order int
 	}{norm(src(n)), v.n})
+	v.stmtPc = append(v.stmtPc, append([]ast.Expr{}, v.pc...))
 }
 
 // inlineCalls walks e for calls of same-file helpers, processes their bodies (in order) and returns, for the outermost
@@ -218,6 +222,11 @@ func (v *canonView) inlineCalls(env *cenv, e ast.Expr) []ast.Expr {
 			return true
 		}
 		fd := v.helper(id.Name)
+		if fd == nil {
+			if fl, ok := v.closures[id.Name]; ok && fl.Body != nil {
+				fd = &ast.FuncDecl{Name: id, Type: fl.Type, Body: fl.Body}
+			}
+		}
 		if fd == nil || v.depth > 4 {
 			return true
 		}
@@ -225,6 +234,11 @@ func (v *canonView) inlineCalls(env *cenv, e ast.Expr) []ast.Expr {
 			v.inlineCalls(env, a)
 		}
 		henv := &cenv{m: map[string]ast.Expr{}, multi: countAssigns(fd.Body)}
+		if _, isClosure := v.closures[id.Name]; isClosure && v.helper(id.Name) == nil {
+			for k, val := range env.m { // a closure sees the variables of the function around it
+				henv.m[k] = val
+			}
+		}
 		i := 0
 		for _, f := range fd.Type.Params.List {
 			for _, nm := range f.Names {
@@ -346,6 +360,17 @@ func (v *canonView) collectLits(e ast.Node) {
 func (v *canonView) stmt(env *cenv, s ast.Stmt) {
 	switch x := s.(type) {
 	case *ast.AssignStmt:
+		if len(x.Lhs) == 1 && len(x.Rhs) == 1 {
+			if fl, ok := x.Rhs[0].(*ast.FuncLit); ok {
+				if id, ok := x.Lhs[0].(*ast.Ident); ok {
+					if v.closures == nil {
+						v.closures = map[string]*ast.FuncLit{}
+					}
+					v.closures[id.Name] = fl // its body is looked at where it is called
+					return
+				}
+			}
+		}
 		v.assign(env, x)
 		for _, r := range v.assigns[len(v.assigns)-1].rhs {
 			v.collectLits(r)
@@ -380,6 +405,8 @@ func (v *canonView) stmt(env *cenv, s ast.Stmt) {
 		v.allReturns = append(v.allReturns, rec)
 		if v.depth == 0 {
 			v.returns = append(v.returns, rec)
+		} else {
+			v.innerReturns = append(v.innerReturns, rec) // a return of an inlined helper / closure: what it hands back, and when
 		}
 	case *ast.IfStmt:
 		if x.Init != nil {
